@@ -266,6 +266,79 @@ def membership_unit(plan):
         plan.dropped.append(membership_unit.__doc__.strip())
 
 
+CTOR_MODEL = """
+impl IndexSet {
+  #[verifier::external_body] pub fn new() -> (r: IndexSet) ensures r.view() == Set::<int>::empty() { unimplemented!() }
+  #[verifier::external_body] pub fn insert(&mut self, v: Value) -> (b: bool) ensures final(self).view() == old(self).view().insert(v.id), old(self).view().finite() ==> final(self).view().finite() { unimplemented!() }
+}
+// `for v in vec { .. }` moves the elements out one by one: element i of the consumed vector
+#[verifier::external_body] pub fn vec_take(vec: &Vec<Value>, i: usize) -> (v: Value) requires i < vec@.len(), ensures v == vec@[i as int] { unimplemented!() }
+// the set of the identities of a list of elements
+pub open spec fn ids(s: Seq<Value>) -> Set<int> decreases s.len() { if s.len() == 0 { Set::<int>::empty() } else { ids(s.drop_last()).insert(s.last().id) } }
+pub open spec fn one_kind(s: Set<int>) -> bool { forall|a: int, b: int| #![auto] s.contains(a) && s.contains(b) ==> kind_of(a) == kind_of(b) }
+"""
+
+
+def constructors_unit(plan):
+    """MechSet::from_vec and MechSet::from_set (src/core/src/structures/set.rs), whole bodies verbatim except: `for v in vec {` ->
+    `for i_ in 0..vec.len() { let v = vec_take(&vec, i_);` (consuming iteration); `MechSet{ kind, num_elements: .., set}` kept.
+    ConvertMatToSet::solve (src/interpreter/src/stdlib/convert/scalar.rs): its last statement `*self.out.borrow_mut() = MechSet::from_vec(converted_values);`
+    as `*out = MechSet::from_vec(converted_values);` over the converted element list (the element conversion itself is C12's subject)."""
+    from vlib import read_repo, extract_fn, VerusUnit, AnchorLost, find_code
+    text = read_repo("src/core/src/structures/set.rs")
+    items, fns = [SET_PRELUDE, CTOR_MODEL], {}
+    WHAT = "the set holds exactly the (distinct) elements given; its reported size is its number of elements; if the elements are of one kind that kind is the set's kind (Empty when empty)"
+    # from_vec
+    n1 = "C14.constructor.MechSet.from_vec"
+    plan.ob(n1, "verus", "proved", functions=["src/core/src/structures/set.rs: MechSet::from_vec"], what=WHAT)
+    try:
+        sig, body = extract_fn(text, "from_vec")
+        b = re.sub(r"//[^\n]*", "", body)
+        b, n = re.subn(r"for\s+(\w+)\s+in\s+vec\s*\{", lambda m: "for i_ in 0..vec.len()\n    invariant set.view().finite(), set.view() == ids(vec@.subrange(0, i_ as int)),\n  { let %s = vec_take(&vec, i_); proof { assert(vec@.subrange(0, i_ + 1).drop_last() =~= vec@.subrange(0, i_ as int)); assert(vec@.subrange(0, i_ + 1).last() == vec@[i_ as int]); }" % m.group(1), b)
+        if n != 1:
+            raise AnchorLost("from_vec: `for v in vec {` not found")
+        b = b.replace("IndexSet::new()", "IndexSet::new()")
+        # proof that the prefix is the whole vector, placed before the kind computation
+        b = re.sub(r"(let\s+kind\s*=)", r"proof { assert(vec@.subrange(0, vec@.len() as int) =~= vec@); }\n    \1", b, count=1)
+        items.append("impl MechSet {\npub fn from_vec(vec: Vec<Value>) -> (r: MechSet)\n  ensures r.set.view() == ids(vec@), r.set.view().finite(), r.num_elements == r.set.view().len(), one_kind(ids(vec@)) ==> r.wf(),\n" + b + "\n}\n")
+        fns["from_vec"] = n1
+    except AnchorLost as e:
+        plan.anchor_errors.append((n1, str(e)))
+    # from_set
+    n2 = "C14.constructor.MechSet.from_set"
+    plan.ob(n2, "verus", "proved", functions=["src/core/src/structures/set.rs: MechSet::from_set"], what=WHAT)
+    try:
+        sig, body = extract_fn(text, "from_set")
+        b = re.sub(r"//[^\n]*", "", body)
+        items.append("impl MechSet {\npub fn from_set(set: IndexSet) -> (r: MechSet)\n  requires set.view().finite(),\n  ensures r.set.view() == set.view(), r.num_elements == r.set.view().len(), one_kind(set.view()) ==> r.wf(),\n" + b + "\n}\n")
+        fns["from_set"] = n2
+    except AnchorLost as e:
+        plan.anchor_errors.append((n2, str(e)))
+    # ConvertMatToSet::solve: the statement that stores the result
+    n3 = "C14.constructor.ConvertMatToSet.solve"
+    plan.ob(n3, "verus", "proved", functions=["src/interpreter/src/stdlib/convert/scalar.rs: ConvertMatToSet::solve (the statement that builds the set)"],
+            what="converting a matrix to a set stores a set that holds exactly the distinct converted elements, with reported size == number of elements")
+    try:
+        ctext = read_repo("src/interpreter/src/stdlib/convert/scalar.rs")
+        m = find_code(ctext, r"impl\s+MechFunctionImpl\s+for\s+ConvertMatToSet\s*\{")
+        if not m:
+            raise AnchorLost("impl MechFunctionImpl for ConvertMatToSet not found")
+        sig, body = extract_fn(ctext[m.start():vlib.match_brace(ctext, m.end() - 1)], "solve")
+        st = [vlib.strip_lead(x) for x in vlib.split_statements(body)]
+        last = st[-1].strip()
+        mm = re.fullmatch(r"\*self\.out\.borrow_mut\(\)\s*=\s*(.+);", last, re.S)
+        if not mm or "converted_values" not in " ".join(st[:-1]):
+            raise AnchorLost("ConvertMatToSet::solve: the last statement is no longer `*self.out.borrow_mut() = ..;` over `converted_values`")
+        items.append("fn convert_mat_to_set_store(out: &mut MechSet, converted_values: Vec<Value>)\n  ensures final(out).set.view() == ids(converted_values@), final(out).set.view().finite(), final(out).num_elements == final(out).set.view().len(),\n    one_kind(ids(converted_values@)) ==> final(out).wf(),\n{\n  *out = %s;\n}\n" % mm.group(1))
+        fns["convert_mat_to_set_store"] = n3
+    except AnchorLost as e:
+        plan.anchor_errors.append((n3, str(e)))
+    if fns:
+        items.append(vlib.verus_canary("canary_ctor", "x: u64", []))
+        plan.verus.append(VerusUnit("c14_constructors", vlib.verus_file(items), fns, ["canary_ctor"]))
+        plan.dropped.append(constructors_unit.__doc__.strip())
+
+
 def literal_unit(plan):
     """(F) the kind-homogeneity check of `set()` (src/interpreter/src/structures.rs): the statements from
     `let element_kind = ..` up to (excluding) the construction of the set, verbatim except `return Err(..)` -> `return None`
@@ -317,6 +390,10 @@ def plan(plan, tier, seed):
         literal_unit(plan)
     except Exception as e:
         plan.anchor_errors.append(("C14.literal.*", repr(e)))
+    try:
+        constructors_unit(plan)
+    except Exception as e:
+        plan.anchor_errors.append(("C14.constructor.*", repr(e)))
     try:
         membership_unit(plan)
     except Exception as e:
